@@ -171,7 +171,7 @@ FIXED = [
 
 def make_texts(ctx):
     r = ctx['rng']
-    n = 6000 if ctx['tier'] == 'thorough' else 420
+    n = 8000 if ctx['tier'] == 'thorough' else 1000
     out = [t.encode() for t in FIXED]
     for _ in range(n):
         g = G(r)
